@@ -217,6 +217,34 @@ func (p *c09) Run(rec *core.Recorder, seed uint64, idx int, tier string) {
 		return
 	}
 	idx -= 4
+	if idx%20 == 13 {
+		// lists set from one base list that has been built by range(), merge or slice (and so may carry spare room): every
+		// set keeps the value it was given, whatever is set or iterated afterwards
+		lit := func(n int64) mt.Expr { return mt.Arr{Items: []mt.Expr{mt.I(n)}} }
+		merge := func(e mt.Expr, with mt.Expr) mt.Expr { return mt.Filt{E: e, Name: "merge", Args: []mt.Expr{with}} }
+		base := []mt.Expr{
+			mt.Call{Name: "range", Args: []mt.Expr{mt.I(1), mt.I(int64(r.Range(2, 6)))}},
+			merge(mt.Arr{Items: []mt.Expr{mt.I(1), mt.I(2)}}, lit(3)),
+			mt.Filt{E: mt.V("xs"), Name: "slice", Args: []mt.Expr{mt.I(0), mt.I(int64(r.Range(1, 4)))}},
+			merge(mt.Call{Name: "range", Args: []mt.Expr{mt.I(1), mt.I(2)}}, mt.Call{Name: "range", Args: []mt.Expr{mt.I(5), mt.I(int64(r.Range(5, 9)))}}),
+			merge(merge(mt.V("xs"), lit(6)), lit(7)),
+		}[r.Intn(5)]
+		show := func(name string) mt.Stmt {
+			return mt.For{Val: "e", Seq: mt.V(name), Body: []mt.Stmt{mt.P(mt.V("e")), mt.T(".")}}
+		}
+		body := []mt.Stmt{mt.Set{Name: "lb", E: base},
+			mt.Set{Name: "la", E: merge(mt.V("lb"), lit(int64(r.Range(10, 19))))},
+			mt.Set{Name: "lc", E: merge(mt.V("lb"), lit(int64(r.Range(20, 29))))},
+			mt.T("a:"), show("la"), mt.T("c:"), show("lc"), mt.T("b:"), show("lb"),
+			mt.For{Val: "i", Seq: mt.Arr{Items: []mt.Expr{mt.I(31), mt.I(32), mt.I(33)}}, Body: []mt.Stmt{
+				mt.Set{Name: "row", E: merge(mt.V("lb"), mt.Arr{Items: []mt.Expr{mt.V("i")}})},
+				mt.If{Conds: []mt.Expr{mt.Attr{E: mt.V("loop"), Name: "first"}}, Bodies: [][]mt.Stmt{{mt.Set{Name: "kept", E: mt.V("row")}}}},
+				mt.T("r:"), show("row")}},
+			mt.T("k:"), show("kept"), mt.T("a:"), show("la")}
+		rec.Count("sets-from-a-shared-base", 1)
+		p.check(rec, "shared-base", body, map[string]mt.Val{"xs": []mt.Val{int64(3), int64(1), int64(4), int64(1), int64(5)}}, nil, true)
+		return
+	}
 	// --- random programs
 	pg := NewProgGen(r)
 	pg.intVars = []string{"acc0"}
